@@ -6,6 +6,10 @@ own test/test_adddeletesir.py, which carries the cookbook recipe verbatim) under
 scripted random source, and observes after every event: the all-nodes locus, the network, every
 node's compartment, the disease's loci, the node created by `add` and every addEdge call it made.
 
+A share of the cases runs a SUB-CLASS of the population process whose deletion kernel (the documented extension point:
+override AddDelete.delete) goes through the bulk interface of Process, which doc/process.rst defines in terms of the basic
+methods so that sub-classes (AddDelete, the compartmented models) need only override those: see KERNELS.
+
 Tie B: the same run on Model/AddDelete.v over Model/Kernel.v (Tie/C19.v).
 D: the property restated on the observations, independent of the Coq model."""
 import importlib.util
@@ -30,6 +34,47 @@ class OutOfScope(Exception):
 
 class AddLivelock(Exception):
     pass
+
+
+# ---------------------------------------------------------------- deletion kernels through the bulk interface
+# doc/adddelete.rst: other behaviours are obtained by overriding AddDelete.add / AddDelete.delete.  doc/process.rst: the bulk
+# methods (removeNodesFrom, removeEdgesFrom ...) are defined in terms of the basic ones (removeNode, removeEdge), "so sub-classes
+# need only override those" - AddDelete overrides removeNode to keep its all-nodes locus in step, a compartmented model
+# overrides removeNode / removeEdge to keep its loci in step.
+#   bulk1        self.removeNodesFrom([n]): by that definition exactly removeNode(n), so the stock model applies
+#   household    n and the neighbours it would leave isolated, in one removeNodesFrom call (several nodes leave in one event)
+#   edges_first  self.removeEdgesFrom(the edges at n) and then removeNode(n): the same network and loci as removeNode(n)
+KERNELS = ('bulk1', 'household', 'edges_first')
+
+
+def household(n, nodes, edges):
+    """who the household kernel removes: n, then its neighbours of degree 1, in the order the network lists them"""
+    deg = {}
+    for (a, b) in edges:
+        deg[a] = deg.get(a, 0) + 1
+        deg[b] = deg.get(b, 0) + 1
+    nb = {b if a == n else a for (a, b) in edges if n in (a, b)}
+    return [n] + [m for m in nodes if m in nb and m != n and deg.get(m, 0) == 1]
+
+
+def with_kernel(base, kernel):
+    """the sub-class of a population class with the given deletion kernel (None: the class itself)"""
+    if kernel is None:
+        return base
+    if kernel == 'bulk1':
+        def delete(self, t, n):
+            self.removeNodesFrom([n])
+    elif kernel == 'household':
+        def delete(self, t, n):
+            g = self.network()
+            self.removeNodesFrom([n] + [m for m in g.neighbors(n) if m != n and g.degree(m) == 1])
+    elif kernel == 'edges_first':
+        def delete(self, t, n):
+            self.removeEdgesFrom(list(self.network().edges(n)))
+            self.removeNode(n)
+    else:
+        raise ValueError(kernel)
+    return type('%s_%s' % (base.__name__, kernel), (base,), {'delete': delete})
 
 
 # ---------------------------------------------------------------- the documented combinations
@@ -124,7 +169,7 @@ def gen_graph(rnd, n):
     return {'nodes': list(g.nodes()), 'edges': [list(e) for e in g.edges()], 'kind': kind}
 
 
-def gen_case(rnd, combo=None, dynamics=None, regime=None, more=None):
+def gen_case(rnd, combo=None, dynamics=None, regime=None, more=None, kernel=None):
     combo = combo or rnd.choice(['alone', 'alone', 'inherit', 'inherit', 'inherit_rev', 'sequence', 'sequence'])
     dynamics = dynamics or rnd.choice(['stochastic', 'stochastic', 'synchronous'])
     regime = regime or rnd.choice(['growth', 'decay', 'mixed', 'mixed', 'mixed', 'mixed', 'static'])
@@ -169,6 +214,14 @@ def gen_case(rnd, combo=None, dynamics=None, regime=None, more=None):
             case['more'].append({'c': c2, 'pAdd': rnd.choice(hi), 'pDelete': rnd.choice([0.0, 0.0, 0.5, 1.0]),
                                  'maxtime': rnd.choice([2.0, 3.0]) if not sync else rnd.choice([3.0, 4.0]),
                                  'seed': rnd.randrange(1 << 30)})
+    # a deletion kernel through the bulk interface (drawn last: the cases without one are what they were); only where
+    # deletions happen; the sequence recipe does not route removeEdge to the disease, so edges_first is not its business
+    if kernel is None and case['pDelete'] > 0 and rnd.random() < 0.3:
+        kernel = rnd.choice(['bulk1', 'household', 'household', 'edges_first'])
+    if kernel == 'edges_first' and combo == 'sequence':
+        kernel = 'bulk1'
+    if kernel is not None:
+        case['kernel'] = kernel
     return case
 
 
@@ -181,6 +234,7 @@ def run_case(case):
     import epydemic.stochasticdynamics as sd
     cls = combination_classes()
     combo = case['combo']
+    kernel = case.get('kernel')
     g = networkx.Graph()
     g.add_nodes_from(case['graph']['nodes'])
     g.add_edges_from([tuple(e) for e in case['graph']['edges']])
@@ -189,21 +243,21 @@ def run_case(case):
     disease = None
     via_disease = False
     if combo == 'alone':
-        pop = AddDelete()
+        pop = with_kernel(AddDelete, kernel)()
         top = pop
         procs = [pop]
     else:
         params.update({SIR.P_INFECTED: pv['pSeed'], SIR.P_INFECT: pv['pInfect'], SIR.P_REMOVE: pv['pRemove']})
         if combo == 'inherit':
-            pop = cls['DynamicSIR']()
+            pop = with_kernel(cls['DynamicSIR'], kernel)()
             top = disease = pop
             procs = [pop]
         elif combo == 'inherit_rev':
-            pop = cls['RevDynamicSIR']()
+            pop = with_kernel(cls['RevDynamicSIR'], kernel)()
             top = disease = pop
             procs = [pop]
         else:
-            cad = cls['CompartmentedAddDelete']
+            cad = with_kernel(cls['CompartmentedAddDelete'], kernel)
             disease = SIR()
             pop = cad()
             top = ProcessSequence({cad.DISEASE: disease, 'adddelete': pop})
@@ -364,6 +418,17 @@ def run_case(case):
         for k, v in o['stats'].items():
             out['stats'][k] = out['stats'].get(k, 0) + v
     out['stats']['second_and_later_runs'] = len(runs) - 1
+    if kernel:
+        out['stats']['cases_with_delete_kernel:' + kernel] = 1
+        if kernel == 'household':
+            several = 0
+            for o in runs:
+                prev = len((o.get('started') or {}).get('nodes') or [])
+                for s in o['snaps']:
+                    if o['entries'][s['entry']]['fn'] == 'delete' and prev - len(s['nodes']) > 1:
+                        several += 1
+                    prev = len(s['nodes'])
+            out['stats']['household_deletions_of_several_nodes'] = several
     if runs[0].get('skipped'):
         out['skipped'] = runs[0]['skipped']
     return out
@@ -381,13 +446,15 @@ def direct_run(case, obs):
     if obs.get('skipped'):
         return []
     combo = case['combo']
+    kernel = case.get('kernel')
+    label = combo + ('+' + kernel if kernel else '')
     if obs['exception']:
         sig = 'add-draw-loop-did-not-terminate' if obs['exception'].startswith('AddLivelock') else 'run-raised:' + obs['exception'].split(':')[0]
-        return [{'signature': sig + ':' + combo, 'detail': obs['exception']}]
+        return [{'signature': sig + ':' + label, 'detail': obs['exception']}]
     v = []
 
     def bad(sig, **detail):
-        v.append({'signature': sig + ':' + combo, 'detail': detail})
+        v.append({'signature': sig + ':' + label, 'detail': detail})
     c = obs['c']
     st = obs['started']
     prev_nodes, prev_edges = list(st['nodes']), {und(e) for e in st['edges']}
@@ -434,12 +501,14 @@ def direct_run(case, obs):
                     if combo == 'sequence' and not obs['via_disease']:
                         untracked |= {e for e in edges if i in e}
             elif en['fn'] == 'delete':
-                dels += 1
                 n = en['e']
-                if n not in prev_nodes or sorted(nodes) != sorted(x for x in prev_nodes if x != n):
-                    bad('delete-did-not-remove-exactly-its-node', node=n, before=prev_nodes, after=nodes, **where)
-                if edges != {e for e in prev_edges if n not in e}:
-                    bad('delete-did-not-remove-exactly-the-incident-edges', node=n, before=sorted(prev_edges), after=sorted(edges), **where)
+                # who leaves: the node (the stock kernel, bulk1, edges_first); with it the neighbours it leaves isolated (household)
+                gone = household(n, prev_nodes, prev_edges) if kernel == 'household' else [n]
+                dels += len(gone)
+                if n not in prev_nodes or sorted(nodes) != sorted(x for x in prev_nodes if x not in gone):
+                    bad('delete-did-not-remove-exactly-its-node', node=n, leaving=gone, before=prev_nodes, after=nodes, **where)
+                if edges != {e for e in prev_edges if e[0] not in gone and e[1] not in gone}:
+                    bad('delete-did-not-remove-exactly-the-incident-edges', node=n, leaving=gone, before=sorted(prev_edges), after=sorted(edges), **where)
             else:
                 if sorted(nodes) != sorted(prev_nodes) or edges != prev_edges:
                     bad('disease-event-changed-the-network', **where)
@@ -520,6 +589,15 @@ def to_coq_run(case, obs):
     if obs['exception'] is not None or obs['time'] is None or not obs['started'] or len(obs['snaps']) != len(obs['entries']):
         return BAD
     combo = case['combo']
+    if case.get('kernel') == 'household':
+        # the model's delete removes one node: a run in which one event took several is judged by D alone (counted); a run
+        # in which every household was the node itself made exactly the calls of bulk1, i.e. removeNode(n) by the documented
+        # definition of removeNodesFrom, and is compared like any other
+        prev = len(obs['started']['nodes'])
+        for s in obs['snaps']:
+            if obs['entries'][s['entry']]['fn'] == 'delete' and prev - len(s['nodes']) > 1:
+                return None
+            prev = len(s['nodes'])
     code = obs['codes']
     lay = obs['layout']
     names = [l[0] for l in lay['loci']]
@@ -591,7 +669,8 @@ def to_coq(case, obs):
     if obs.get('skipped'):
         return None
     ts = [to_coq_run(case, o) for o in obs['runs'] if not o.get('skipped')]
-    return L.lst([t for t in ts if t is not None])
+    ts = [t for t in ts if t is not None]
+    return L.lst(ts) if ts else None
 
 
 class H(Harness):
@@ -606,7 +685,10 @@ class H(Harness):
     RULE = ('whole runs of AddDelete alone / DynamicSIR(SIR, AddDelete) and the reverse base order / ProcessSequence{SIR, CompartmentedAddDelete} '
             '(classes loaded from /repo/test/test_adddeletesir.py) on networks of 0-8 nodes (empty, path, star, complete, cycle, random; names 0.., 1.. or '
             'scattered so that order+1 is sometimes taken), degree c in 0-3, pure growth / pure decay to the empty network / mixed rates, dyadic '
-            'SIR parameters incl. 0 and 1, stochastic and synchronous dynamics, scripted random source; runs in which add would start with fewer than '
+            'SIR parameters incl. 0 and 1, stochastic and synchronous dynamics, scripted random source; 30 % of the cases with deletions run a sub-class whose '
+            'delete kernel goes through the bulk interface (removeNodesFrom([n]); n with the neighbours it leaves isolated in one removeNodesFrom; '
+            'removeEdgesFrom(edges at n) then removeNode(n) - not in the sequence recipe), each also directed per combination and dynamics; household runs in '
+            'which one event removed several nodes are judged by D only; runs in which add would start with fewer than '
             'c other nodes are outside the property and dropped; non-trivial = at least one addition or deletion; distinct by the whole case')
     TRUSTED = ['Coq 8.16.1 kernel incl. vm_compute', 'harness/c19.py (wrapping of the registered event functions, eventFired tap, addEdge calls of the population process, DrawSet.draw ranks)',
                'networkx Graph (add_node, remove_node, add_edge, edges) modelled as node list + undirected edge list',
@@ -621,9 +703,16 @@ class H(Harness):
             for dynamics in ('stochastic', 'synchronous'):
                 for regime in ('growth', 'decay', 'mixed', 'static'):
                     out.append(gen_case(rnd, combo, dynamics, regime))
+        # ... every deletion kernel through the bulk interface, in every combination it applies to
+        for combo in COMBOS:
+            for dynamics in ('stochastic', 'synchronous'):
+                for kernel in KERNELS:
+                    if not (kernel == 'edges_first' and combo == 'sequence'):
+                        out.append(gen_case(rnd, combo, dynamics, rnd.choice(['decay', 'mixed', 'mixed']), kernel=kernel))
+        directed = len(out)
         while len(out) < n:
             out.append(gen_case(rnd))
-        return out[:max(n, 24)]
+        return out[:max(n, directed)]
 
     def exhaustive_cases(self, tier):
         # the witness of F11 / C19_sequence_refuted: complete graph on 4 infected nodes, additions only
